@@ -49,18 +49,18 @@ theorem src_typing_compiler_only_in_services (c : OutputFile) (tc : TypingCompil
     (the template writes the quotes around it), and a remainder that does not take the compiler -/
 theorem src_stub_method_sites (tc : TypingCompiler) (svc : Str) (m : Method) :
     stubMethod tc svc m
-      = [Piece.lit "    async def ", Piece.expr "method.py_name" m.py_name, Piece.lit "(self"]
+      = [Piece.lit "    async def ", Piece.expr "output_file.services[].methods[].py_name" m.py_name, Piece.lit "(self"]
         ++ stubParam tc m ++ stubKwargs tc ++ stubReturn tc m
-        ++ ([Piece.lit "\":\n"] ++ optComment "method.comment" m.comment ++ stubDeprecation svc m ++ stubBody m
+        ++ ([Piece.lit "\":\n"] ++ optComment "output_file.services[].methods[].comment" m.comment ++ stubDeprecation svc m ++ stubBody m
             ++ [Piece.lit "\n"]) := by
   simp only [stubMethod, nl, List.append_eq, List.append_assoc]
 
 /-- a default server method likewise: parameter site, return site, compiler-free rest -/
 theorem src_base_method_sites (tc : TypingCompiler) (m : Method) :
     baseMethod tc m
-      = [Piece.lit "    async def ", Piece.expr "method.py_name" m.py_name, Piece.lit "(self"]
+      = [Piece.lit "    async def ", Piece.expr "output_file.services[].methods[].py_name" m.py_name, Piece.lit "(self"]
         ++ baseParam tc m ++ [Piece.lit ") -> "] ++ baseReturn tc m
-        ++ ([Piece.lit ":\n"] ++ optComment "method.comment" m.comment ++ raiseUnimplemented ++ unreachableYield m
+        ++ ([Piece.lit ":\n"] ++ optComment "output_file.services[].methods[].comment" m.comment ++ raiseUnimplemented ++ unreachableYield m
             ++ [Piece.lit "\n"]) := by
   simp only [baseMethod, nl, List.append_eq, List.append_assoc]
 
@@ -68,8 +68,8 @@ theorem src_base_method_sites (tc : TypingCompiler) (m : Method) :
     rows (no compiler) -/
 theorem src_base_class_sites (tc : TypingCompiler) (s : Service) :
     baseClass tc s
-      = [Piece.lit "class ", Piece.expr "service.py_name" s.py_name, Piece.lit "Base(ServiceBase):\n"]
-        ++ optComment "service.comment" s.comment ++ [Piece.lit "\n"]
+      = [Piece.lit "class ", Piece.expr "output_file.services[].py_name" s.py_name, Piece.lit "Base(ServiceBase):\n"]
+        ++ optComment "output_file.services[].comment" s.comment ++ [Piece.lit "\n"]
         ++ s.methods.flatMap (baseMethod tc) ++ [Piece.lit "\n"]
         ++ s.methods.flatMap rpcMethod ++ mappingHead tc ++ s.methods.flatMap mappingRow
         ++ [Piece.lit "        }\n\n"] := by
@@ -177,8 +177,8 @@ theorem src_message_class_options (m : Message) :
     ∃ core : List Piece, ∀ pydantic : Bool,
       messageClass pydantic m = dataclassDecorator pydantic ++ core ++ oneofValidator pydantic m ++ [Piece.lit "\n"] ∧
       oneofValidator false m = [] ∧ (m.has_oneof_fields = false → oneofValidator pydantic m = []) := by
-  refine ⟨[Piece.lit "class ", Piece.expr "message.py_name" m.py_name, Piece.lit "(betterproto.Message):\n"]
-      ++ optComment "message.comment" m.comment ++ m.fields.flatMap fieldLine ++ passIfEmpty m.fields
+  refine ⟨[Piece.lit "class ", Piece.expr "output_file.messages[].py_name" m.py_name, Piece.lit "(betterproto.Message):\n"]
+      ++ optComment "output_file.messages[].comment" m.comment ++ m.fields.flatMap fieldLine ++ passIfEmpty m.fields
       ++ [Piece.lit "\n"] ++ postInit m ++ [Piece.lit "\n"], ?_⟩
   intro p
   refine ⟨?_, rfl, ?_⟩
@@ -191,8 +191,8 @@ theorem src_enum_class_options (e : EnumDef) :
     ∃ core : List Piece, ∀ pydantic : Bool,
       enumClass pydantic e = core ++ enumPydanticSchema pydantic ++ [Piece.lit "\n"] ∧
       enumPydanticSchema false = [] := by
-  refine ⟨[Piece.lit "class ", Piece.expr "enum.py_name" e.py_name, Piece.lit "(betterproto.Enum):\n"]
-      ++ optComment "enum.comment" e.comment ++ e.entries.flatMap enumEntry ++ [Piece.lit "\n"], ?_⟩
+  refine ⟨[Piece.lit "class ", Piece.expr "output_file.enums[].py_name" e.py_name, Piece.lit "(betterproto.Enum):\n"]
+      ++ optComment "output_file.enums[].comment" e.comment ++ e.entries.flatMap enumEntry ++ [Piece.lit "\n"], ?_⟩
   intro p
   refine ⟨?_, rfl⟩
   simp only [enumClass, nl, List.append_eq, List.append_assoc]
